@@ -954,6 +954,33 @@ func (c *EvalCtx) call(v *ECall) TV {
 			return tvTerm(ival(t))
 		}
 		return tvTerm(t)
+	case "mkstruct":
+		// mkstruct("pkg.T", f1, f2, ...): the value of struct type pkg.T with the given field values, in declaration order
+		if len(v.Args) < 1 {
+			c.fail("mkstruct needs a type")
+		}
+		ts, ok := v.Args[0].(*EStr)
+		if !ok {
+			c.fail("mkstruct: first argument must be a type name string")
+		}
+		ty, err := c.prog.lookupType(ts.V, c.pkg)
+		if err != nil {
+			c.fail("%v", err)
+		}
+		ss := c.prog.sortOf(ty)
+		dt, isDT := c.prog.U.Datatypes[ss]
+		if !isDT || len(dt.Fields) != len(v.Args)-1 {
+			c.fail("mkstruct(%s): expects %d field values", ts.V, len(dt.Fields))
+		}
+		var fs []*Term
+		for i, a := range v.Args[1:] {
+			t := c.termOf(c.eval(a))
+			if t.Sort != dt.Fields[i].Sort {
+				c.fail("mkstruct(%s): field %d has sort %s, want %s", ts.V, i+1, t.Sort, dt.Fields[i].Sort)
+			}
+			fs = append(fs, t)
+		}
+		return c.typed(App(dt.Ctor, ss, fs...), ty)
 	case "allocated":
 		// allocated(p): p is nil or an object that exists in the state the clause is evaluated in (for old(): at entry)
 		need(1)
